@@ -70,7 +70,7 @@ func runC11(c *an.Ctx) {
 		}
 		return "", ""
 	})
-	c.Floor("BOUND", 80)
+	c.Floor("BOUND", 40)
 
 	// NILP on error results
 	nn := 0
@@ -429,7 +429,7 @@ func clientMergeRule(c *an.Ctx) {
 		}
 	}
 	c.Count("MERGE", nm)
-	c.Floor("MERGE", 3)
+	c.Floor("MERGE", 2)
 }
 
 func isLocalServerMap(fi *an.FuncInfo, m ssa.Value) bool {
